@@ -59,6 +59,7 @@ impl Ctl {
         self.fail_at.store(-1, Ordering::SeqCst);
         self.sticky.store(false, Ordering::SeqCst);
         self.partial.store(false, Ordering::SeqCst);
+        *self.write_filter.lock().unwrap() = None;
     }
 
     fn tick(&self, kind: &'static str, what: impl FnOnce() -> String) -> io::Result<()> {
